@@ -112,6 +112,8 @@ int main(int argc, char** argv)
     lat.axis("tuner", 2, jstr("local-search, surrogate"));
     lat.axis("samples", Ns.size(), jarr_num(Ns));
     lat.axis("gboost_variant", T ? 12 : 6, jstr("shrinkage {off,global,local} x subsample {off,subsample} (x wscale {gboost,tboost} in thorough); linear: only variant 0"));
+    lat.axis("sample_list", 3, jstr("all samples | a strict non-contiguous subset (every index with i % 4 != 1) | as many draws as the dataset has "
+                                    "samples, with repetitions (sorted bootstrap list: i -> (i * 7) % N over i % 3 != 0, duplicated to length N)"));
     lat.axis("object_history", 2, jstr("fresh model object | the same object was fitted before (default parameters, another dataset of the same schema with 16 samples, 2 folds)"));
     lat.describe(r);
 
@@ -139,7 +141,48 @@ int main(int argc, char** argv)
         const auto loss    = loss_t::all().get(lid);
         const auto source  = vt::make_model_source(k.samples, k.target == 0 ? 0 : 2, true);
         const auto dataset = vt::make_model_dataset(*source, 1);
-        const auto samples = arange(0, k.samples);
+        const auto samples = [&]()
+        {
+            const auto N = static_cast<tensor_size_t>(k.samples);
+            if (d[7] == 0)
+            {
+                return indices_t{arange(0, N)};
+            }
+            std::vector<tensor_size_t> list;
+            if (d[7] == 1)
+            {
+                for (tensor_size_t i = 0; i < N; ++i)
+                {
+                    if (i % 4 != 1)
+                    {
+                        list.push_back(i);
+                    }
+                }
+            }
+            else
+            {
+                // N draws with repetitions: the members are the indices i with i % 3 != 0, visited in a scrambled order
+                std::vector<tensor_size_t> members;
+                for (tensor_size_t i = 0; i < N; ++i)
+                {
+                    if (i % 3 != 0)
+                    {
+                        members.push_back(i);
+                    }
+                }
+                for (tensor_size_t j = 0; j < N; ++j)
+                {
+                    list.push_back(members[static_cast<size_t>((j * 7) % static_cast<tensor_size_t>(members.size()))]);
+                }
+                std::sort(list.begin(), list.end());
+            }
+            indices_t out(static_cast<tensor_size_t>(list.size()));
+            for (size_t i = 0; i < list.size(); ++i)
+            {
+                out(static_cast<tensor_size_t>(i)) = list[i];
+            }
+            return out;
+        }();
         const auto params  = vt::make_fit_params(k.folds, k.tuner == 0 ? "local-search" : "surrogate");
         const auto splits  = params.splitter().split(samples);
         const auto one     = "stats:" + std::to_string(index);
@@ -147,7 +190,7 @@ int main(int argc, char** argv)
         {
             return jobj({{"model", jint(k.model)}, {"loss", jstr(lid)}, {"folds", jint(k.folds)}, {"tuner", jint(k.tuner)},
                          {"samples", jint(k.samples)}, {"shrinkage", jint(k.shrinkage)}, {"subsample", jint(k.subsample)},
-                         {"wscale", jint(k.wscale)}, {"refit_of_used_object", jint(d[7])}, {"what", jstr(what)}});
+                         {"wscale", jint(k.wscale)}, {"refit_of_used_object", jint(d[8])}, {"sample_list", jint(d[7])}, {"what", jstr(what)}});
         };
         if (index % 41 == 0)
         {
@@ -156,7 +199,7 @@ int main(int argc, char** argv)
         ml::result_t   result;
         rlinear_t      linear;
         gboost_model_t gboost = vt::make_gboost(is_lin ? 0 : k.model - 4);
-        const bool refit = d[7] != 0;
+        const bool refit = d[8] != 0;
         try
         {
             if (is_lin)
